@@ -46,6 +46,7 @@ fn main() {
             let rf = load_replay(&path);
             let code = match rf.engine.as_str() {
                 "R" => replay_with(&reader::ReaderEngine, &rf, &path),
+                "Rc" => reader::replay_concurrent(&rf, &path),
                 "K16" => {
                     let c = replay_with(&client::ClientEngine { prop: "C16" }, &rf, &path);
                     client::pty::cleanup_workdirs();
@@ -82,7 +83,15 @@ fn main() {
 fn check(prop: &str, tier: &str) -> i32 {
     match prop {
         "C19" => {
-            let cfg = BatchCfg::from_env(tier, 1_500_000, 40_000_000, 120.0, 1500.0);
+            let mut cfg = BatchCfg::from_env(tier, 1_500_000, 40_000_000, 120.0, 1500.0);
+            // first: do results depend on what other threads decode at the same moment? (if they
+            // do, a batch of many workers in one process cannot be deterministic either)
+            let conc = reader::concurrent_purity(cfg.seed, tier, cfg.threads);
+            cfg.extra_coverage.push(("concurrent_purity".into(), conc.coverage));
+            if let Some(v) = conc.violation {
+                cfg.pre_found.push(v);
+                cfg.tolerate_det_mismatch = true;
+            }
             run_batch(&reader::ReaderEngine, &cfg).exit_code
         }
         "C12" | "C13" | "C14" | "C15" => {
